@@ -19,6 +19,10 @@ func discoverMerges(p *Program) []*ssa.Function {
 		if fn.Parent() != nil || fn.Pkg == nil || fn.Pkg.Pkg.Path() != pkgSty || fn.Signature.Recv() != nil {
 			continue
 		}
+		if len(fn.Params) == 2 && fn.Signature.Results().Len() == 0 && inPlaceMergeDst(p, fn) >= 0 {
+			out = append(out, fn) // fill-in-place form: inherit(dst, ancestor *T)
+			continue
+		}
 		if len(fn.Params) != 2 || fn.Signature.Results().Len() != 1 {
 			continue
 		}
@@ -201,4 +205,43 @@ func ruleNoRegistryWrite(r *Run) {
 		r.Check("no-registry-write", shortName(fn), fn.Pos(), len(sites) == 0, detail)
 	}
 	r.Min("style_lookup_functions", n, 8)
+}
+
+// inPlaceMergeDst: fn(dst, src *T) has no result, T is a property bag, and fn stores into the fields
+// of exactly one of its parameters (dst) and never into the other.  Returns the index of dst, -1
+// when fn is not of that form.
+func inPlaceMergeDst(p *Program, fn *ssa.Function) int {
+	if len(fn.Params) != 2 || fn.Signature.Results().Len() != 0 || len(fn.Blocks) == 0 {
+		return -1
+	}
+	t := isModStruct(p, fn.Params[0].Type())
+	if t == nil || isModStruct(p, fn.Params[1].Type()) != t {
+		return -1
+	}
+	if _, isPtr := fn.Params[0].Type().Underlying().(*types.Pointer); !isPtr {
+		return -1
+	}
+	st, ok := t.Underlying().(*types.Struct)
+	if !ok || !isPropertyBag(st) {
+		return -1
+	}
+	written := map[int]bool{}
+	allInstrs(fn, func(in ssa.Instruction) {
+		if s, ok := in.(*ssa.Store); ok {
+			if fa, ok := s.Addr.(*ssa.FieldAddr); ok {
+				for i, q := range fn.Params {
+					if fa.X == ssa.Value(q) {
+						written[i] = true
+					}
+				}
+			}
+		}
+	})
+	if len(written) != 1 {
+		return -1
+	}
+	for i := range written {
+		return i
+	}
+	return -1
 }
